@@ -61,6 +61,18 @@ CHECKS["C17"]["note"] = (_NOTE + "pandas / polars behaviour is an ASSUMED contra
 CHECKS["C20"]["note"] = (_NOTE + "ASSUMED: matplotlib / plotly primitives draw what their arguments say (pyvc/plotstubs.py records the arguments handed to them); "
     "Normalize(clip=True) + colormap is monotone. What the back ends actually render is not verified. Not covered: image, polar_map, bar3d, globe/cylinder/surface maps, pair_bars, "
     "stats box, colorbar, format_time_ticks, folium, vega (disabled at this commit).")
+for _p, _t in {
+    "C03": "Unbounded (ANY number of bins, z3 array terms + a quantified searchsorted contract): Histogram1D.find_bin and fill -- the reported bin contains the value, exactly that bin is "
+           "incremented by w (squared error by w*w), under/overflow/gap bookkeeping, statistics, dtype. ",
+    "C05": "Unbounded (any number of bins): __iadd__ of histograms over the same bins adds contents and squared errors bin by bin, missed values, dtype promotion, other operand untouched. ",
+    "C06": "Unbounded (any number of bins): __imul__ / __itruediv__ scale every content by c and every squared error by c*c; in-place normalize keeps proportions. ",
+    "C12": "Unbounded: Histogram1D.copy shares nothing writable for any number of bins. ",
+    "C13": "Unbounded: dtype promotion / consistency clauses of __imul__, __itruediv__, __iadd__, fill for any number of bins. ",
+    "C16": "Unbounded: densities * widths == frequencies, widths > 0, centres for any number of bins. ",
+}.items():
+    CHECKS[_p]["category"] = "proof"
+    CHECKS[_p]["technique"] = "contract-based deductive verification: VCs from the real AST, z3 (arrays of symbolic extent as z3 array terms, quantified clauses); remaining array code bounded"
+    CHECKS[_p]["text"] = _t + CHECKS[_p]["text"]
 CHECKS["C04"] = {"category": "proof", "technique": "contract-based deductive verification: VCs from the real AST, z3 (nonlinear mixed int/real arithmetic)",
    "text": "FixedWidthBinning._force_bin_existence_single is verified for an unbounded (symbolic) bin count, width, origin, shift and value: value covered, grid and old "
            "bins kept, minimal growth, returned shift, caches invalidated -- every path, all inputs (reals). The adaptive arms of fill are additionally checked bounded "
